@@ -30,7 +30,7 @@ RULE = ('two sub-batches: (a) systematic sweep - every sequence of length '
         'Non-trivial: an object went through >= 3 distinct states, or a '
         'cryptographic use was attempted on a non-Active object. Distinct '
         '= digest of the response/state trace.')
-PROBES = ['use_on_non_active_rejected', 'use_succeeded', 'wrap_succeeded',
+PROBES = ['derive_from_several_bases_succeeded', 'use_on_non_active_rejected', 'use_succeeded', 'wrap_succeeded',
           'derive_succeeded', 'destroy_of_active_refused',
           'revoke_from_preactive', 'compromised_reached',
           'deactivated_reached', 'mask_bit_missing_rejected', 'restart']
@@ -172,6 +172,15 @@ def generate(rng, tier, index):
             steps.append({'actor': 0, 'ver': [1, 2], 'items': [op]})
         elif x < 0.25:
             steps.append({'restart': True})
+        elif x < 0.33 and len([o for o in objs if o[1] in (
+                'SymmetricKey', 'SecretData')]) >= 2:
+            # a derivation from several base objects whose masks differ:
+            # every one of them needs the Derive Key bit, in any position
+            cand = [o for o in objs if o[1] in ('SymmetricKey', 'SecretData')]
+            base = r.sample(cand, min(len(cand), r.choice([2, 2, 3])))
+            st = letter_step('K', 'SymmetricKey', '@' + base[0][0], r, ver)
+            st['items'][0]['uids'] = ['@' + b[0] for b in base]
+            steps.append(st)
         else:
             lab, ot = r.choice(objs)
             le = r.choice(LETTERS + ['A', 'U', 'U', 'Rk'])
@@ -282,6 +291,8 @@ def execute(plan):
                                             'mask': k['mask']})
                 elif name == 'DeriveKey' and ok:
                     probes['derive_succeeded'] += 1
+                    if len(op.get('uids', [])) > 1:
+                        probes['derive_from_several_bases_succeeded'] += 1
                     for u in op.get('uids', []):
                         b = before.get(W.resolve(u))
                         if b is None or not (b['mask'] or 0) & 0x200:
